@@ -392,3 +392,57 @@ Proof. intros Hs Hr Hp. unfold tau_loop. rewrite (encl_length _ _ Hp).
     destruct sq; [apply encl_mul; apply encl_nth_d, Hr|apply encl_nth_d, Hr]. }
   apply Hacc. exact encl_zero. Qed.
 
+
+(* ---- correlated-k optical depth of one layer (Model_C20.ktau): -ln of the mixture, which must be positive ---- *)
+Lemma encl_ksig_at sI sR l w g : Forall2 (Forall2 encl_list) sI sR ->
+  encloses (@ksig_at _ IvTNum sI l w g) (@ksig_at R RTNum sR l w g).
+Proof. intros H. unfold ksig_at. apply encl_nth_d.
+  assert (Hl : Forall2 encl_list (nth l sI []) (nth l sR [])).
+  { revert l. induction H as [|a x sI sR Hax _ IH]; intros [|l]; cbn [nth]; try constructor; [exact Hax|apply IH]. }
+  revert w. induction Hl as [|a x rI rR Hax _ IH]; intros [|w]; cbn [nth]; try constructor; [exact Hax|apply IH]. Qed.
+
+Lemma encl_ktau_g sI sR rI rR pI pR l w g :
+  Forall2 (Forall2 encl_list) sI sR -> encl_list rI rR -> encl_list pI pR ->
+  encloses (@ktau_g _ IvTNum sI rI pI l w g) (@ktau_g R RTNum sR rR pR l w g).
+Proof. intros Hs Hr Hp. unfold ktau_g. rewrite (encl_length _ _ Hp). generalize (seq 0 (length pR)). intros ks.
+  assert (Hacc : forall aI aR, encloses aI aR ->
+    encloses (fold_left (fun acc k => @nadd _ IvNum acc (@nmul _ IvNum (@nmul _ IvNum (@ksig_at _ IvTNum sI (k + l) w g) (@nth_d _ IvNum pI k)) (@nth_d _ IvNum rI (k + l)))) ks aI)
+             (fold_left (fun acc k => (acc + @ksig_at R RTNum sR (k + l) w g * @nth_d R RNum pR k * @nth_d R RNum rR (k + l))%R) ks aR)).
+  { induction ks as [|k ks IH]; intros aI aR Ha; [exact Ha|]. cbn [fold_left]. apply IH.
+    apply encl_add; [exact Ha|]. apply encl_mul; [apply encl_mul; [apply encl_ksig_at, Hs|apply encl_nth_d, Hp]|apply encl_nth_d, Hr]. }
+  apply Hacc. exact encl_zero. Qed.
+
+Theorem ktau_transfer sI sR wI wR rI rR pI pR l w :
+  Forall2 (Forall2 encl_list) sI sR -> encl_list wI wR -> encl_list rI rR -> encl_list pI pR ->
+  (0 < @ktrans R RTNum wR (map (@ktau_g R RTNum sR rR pR l w) (seq 0 (length wR))))%R ->
+  encloses (@ktau _ IvTNum sI wI rI pI l w) (@ktau R RTNum sR wR rR pR l w).
+Proof. intros Hs Hw Hr Hp Hpos. unfold ktau. apply encl_opp, encl_ln; [|exact Hpos].
+  apply encl_ktrans; [exact Hw|]. rewrite (encl_length _ _ Hw). apply encl_map_seq. intros g.
+  apply encl_ktau_g; assumption. Qed.
+
+(* ---- Gaussian log-likelihood (Model_C06): positive error bars on the real side ---- *)
+Lemma encl_chisq dI dR sI sR mI mR : encl_list dI dR -> encl_list sI sR -> encl_list mI mR ->
+  Forall (fun s => s <> 0%R) sR ->
+  encloses (@chisq _ IvTNum dI sI mI) (@chisq R RTNum dR sR mR).
+Proof. intros Hd Hs Hm Hnz. unfold chisq. apply encl_nsum.
+  revert sI sR Hs Hnz mI mR Hm. induction Hd as [|d x dI dR Hdx _ IH]; intros sI sR Hs Hnz mI mR Hm; cbn [combine map2]; [constructor|].
+  destruct Hs as [|s y sI sR Hsy Hs]; cbn [combine map2]; [constructor|].
+  destruct Hm as [|m z mI mR Hmz Hm]; cbn [map2]; [constructor|]. inversion Hnz; subst.
+  constructor; [|apply IH; assumption]. cbn [fst snd].
+  apply encl_mul; apply encl_div; try assumption; apply encl_sub; assumption. Qed.
+
+Theorem gauss_loglike_transfer dI dR sI sR mI mR : encl_list dI dR -> encl_list sI sR -> encl_list mI mR ->
+  Forall (fun s => 0 < s)%R sR ->
+  encloses (@gauss_loglike _ IvTNum dI sI mI) (@gauss_loglike R RTNum dR sR mR).
+Proof. intros Hd Hs Hm Hpos. unfold gauss_loglike. apply encl_sub.
+  - apply encl_opp, encl_nsum. clear Hd Hm. induction Hs as [|s y sI sR Hsy _ IH]; cbn [map]; [constructor|].
+    inversion Hpos; subst. constructor; [|apply IH; assumption].
+    assert (H2pi : (0 < 2 * PI)%R) by (pose proof PI_RGT_0; lra).
+    apply encl_ln.
+    + apply encl_mul; [exact Hsy|]. apply encl_sqrt; [|unfold n2; cbn; lra].
+      unfold n2. apply encl_mul; [apply encl_ofZ|apply encl_pi].
+    + apply Rmult_lt_0_compat; [assumption|]. apply sqrt_lt_R0. unfold n2. cbn. exact H2pi.
+  - apply encl_div.
+    + apply encl_chisq; try assumption. eapply Forall_impl; [|exact Hpos]. cbn. intros a Ha. lra.
+    + unfold n2. apply encl_ofZ.
+    + unfold n2. cbn. lra. Qed.
